@@ -927,6 +927,15 @@ def check_c16(tier, seed, log=print):
              F.enum([], ['#[regex("(")] A,', '#[regex("[z-a]")] B,', '#[regex("a*")] C,', '#[regex(".*q")] D,', '#[regex("(?&nope)")] E,', '#[token("x", priority = 1, priority = 2)] G,']),
              F.enum(['#[logos(extras = u8, extras = u16, error = E1, error = E2, utf8 = true, utf8 = false)]'], ['#[regex("a")] A,', '#[regex("a")] B,', '#[regex("[a-b]")] C,', '#[token("b")] D,']),
              F.enum(['#[logos(skip "(", skip "[z-a]", skip ")", bogus, other = 3)]'], ['#[token("k")] K(u8, u8),', '#[token("l")] L { x: u8 },', '#[token("m")] M(),'])]
+    # diagnostics that have candidates to choose from or to list (an undefined reference next to several similar names, several
+    # undefined references, unknown items next to known ones): what they say must not depend on a container's iteration order
+    srcs += [F.enum(['#[logos(subpattern hex2 = "[0-9a-f]{2}")]', '#[logos(subpattern hex4 = "[0-9a-f]{4}")]', '#[logos(subpattern hex6 = "[0-9a-f]{6}")]',
+                     '#[logos(subpattern hex8 = "[0-9a-f]{8}")]'], ['#[regex("(?&hex)+")] A,', '#[regex("x(?&hx2)")] B,', '#[regex("#(?&hex2)")] C,']),
+             F.enum(['#[logos(subpattern ab = "a")]', '#[logos(subpattern ac = "b")]', '#[logos(subpattern ad = "c")]', '#[logos(subpattern ba = "d")]', '#[logos(subpattern ca = "e")]',
+                     '#[logos(skip "(?&aa)+")]'], ['#[regex("(?&aa)|(?&bb)|(?&a)")] A,', '#[token("x")] X,']),
+             F.enum(['#[logos(subpattern digit = "[0-9]", subpattern digits = "(?&digit)+", subpattern Digit = "[0-9]", subpattern digit_ = "[0-9]_")]'],
+                    ['#[regex("(?&digi)")] A,', '#[regex("(?&digitt)")] B,']),
+             F.enum(['#[logos(skipp " ", extra = u8, errors = E, utf = true, sub pattern x = "a", crates = logos)]'], ['#[token("k", prioritty = 3, calback = f, ignor(case), alow_greedy = true)] K,'])]
     builds = {}
     bdir = os.path.join(P.HARNESS, 'target', 'debug', 'capture')
     builds['tailcall'] = bdir
